@@ -1068,6 +1068,22 @@ func (c *ExprCtx) call(x CCall) TV {
 				c.fail("ghost(name)")
 			}
 			return TV{V: e.get(c.st, "ghost:"+n.Name, SBool), Typ: types.Typ[types.Bool]}
+		case "boxof":
+			// boxof(x): the data word the interface value interface{}(x) carries (an integer or bool: the
+			// value; a pointer: the pointer; a slice: a word determined by its storage, offset and length)
+			tv := c.expr(x.Args[0])
+			switch vv := tv.V.(type) {
+			case T:
+				if vv.Sort == SBool {
+					return TV{V: Ite(vv, IntLit(1), IntLit(0))}
+				}
+				return TV{V: vv}
+			case *PtrV:
+				return TV{V: e.ptrTerm(vv)}
+			case *SliceV:
+				return TV{V: e.boxSliceWord(vv)}
+			}
+			c.fail("boxof: value cannot be boxed in a contract (%T)", tv.V)
 		case "dyndata":
 			// dyndata(x): the data word of an interface value (for a boxed pointer: the pointer)
 			tv := c.expr(x.Args[0])
